@@ -208,6 +208,12 @@ def gen_document(rng: random.Random, n_schemas=None, n_ops=None, version=None, p
         if rng.random() < 0.2:
             op["responses"]["204"] = {"description": "empty"}
         item = paths.setdefault(path, {})
+        if verb in item and all(v in item for v in ["post", "put", "patch", "delete", "get"]):
+            n_alt = 2
+            while f"{path}/alt{n_alt}" in paths and len(paths[f"{path}/alt{n_alt}"]) >= 5:
+                n_alt += 1
+            path = f"{path}/alt{n_alt}"          # every verb of this path is taken: a sibling path (path parameters stay in the prefix)
+            item = paths.setdefault(path, {})
         if verb in item:
             verb = next(v for v in ["post", "put", "patch", "delete", "get"] if v not in item)
             if content is None and verb in ("post", "put", "patch"):
